@@ -324,7 +324,7 @@ def gen_c03(tier, seed):
             idx += 1
     # sample_count x sample_size far beyond 32 bits (each option is a u32 and fine alone), cut short by a tiny max_time: the
     # first round always runs
-    for (n_, s_) in ([(65536, 65536), (1 << 20, 1 << 12)] if tier == "quick" else [(65536, 65536), (1 << 20, 1 << 12), (70000, 70000), (98304, 131072), (4294967295, 3)]):
+    for (n_, s_) in ([(65536, 65536), (1 << 20, 1 << 12), (4294967295, 3)] if tier == "quick" else [(65536, 65536), (1 << 20, 1 << 12), (70000, 70000), (98304, 131072), (4294967295, 3)]):
         d = {"id": idx, "entry": 0, "T": 1, "s": s_, "n": n_, "cbase": 1, "freq": 10 ** 9, "seed": rng.randrange(1 << 20), "fplog": 0, "oshape": "z", "max": 1,
              "_novos": True}
         if s_ > 200000:
